@@ -551,6 +551,23 @@ def rule_atomic(ctx: Ctx) -> RuleResult:
                     problems.append((w, "a normal path leaves the function after writing the temporary file without renaming it onto the sidecar"))
                 if cfg.path_exists(fn.id, wn.id, exceptional=False):
                     problems.append((w, "the temporary file is written after it was renamed"))
+            # the rename moves a finished file: the handle the content was written through is closed by then
+            for w in writes_T:
+                if not (isinstance(w.func, ast.Attribute) and w.func.attr == "open") and dotted(w.func) not in ("open", "builtins.open"):
+                    continue
+                holder = next((st for st in own_nodes(f.node) if isinstance(st, ast.With) and any(it.context_expr is w for it in st.items)), None)
+                if holder is not None:
+                    if any(x is final[0] for b_ in holder.body for x in ast.walk(b_)):
+                        problems.append((final[0], f"`{norm(final[0])[:50]}` renames the temporary file while it is still open (inside its `with` "
+                                                   f"block): buffered content is not in the file yet, a crash right after the rename leaves a "
+                                                   f"truncated sidecar"))
+                else:
+                    hname = next((d.var for d in flow.all_defs if d.value is w), None)
+                    closes = [cfg.node_of(c_).id for c_ in own_nodes(f.node) if isinstance(c_, ast.Call) and isinstance(c_.func, ast.Attribute)
+                              and c_.func.attr == "close" and norm(c_.func.value) == hname and cfg.node_of(c_) is not None]
+                    wn = cfg.node_of(w)
+                    if hname is None or not closes or not cfg.on_all_paths(wn.id, fn.id, closes):
+                        problems.append((final[0], "the temporary file is renamed onto the sidecar without having been closed on every path"))
             # the success return comes after the rename
             for r in _rets(f):
                 rn = cfg.node_of(r)
